@@ -126,6 +126,8 @@ var c15ExtraSDL = []string{
 	"type Query { f(a: [[[[Int!]!]!]!]!): Int } input I { deep: [[[[String!]!]!]!] }",
 	// directives named like those of newer specification drafts are the service's own definitions
 	"directive @defer(label: String, if: Boolean = true) on FRAGMENT_SPREAD | INLINE_FRAGMENT directive @oneOf on INPUT_OBJECT directive @stream(initialCount: Int = 0) on FIELD type Query { a: Int }",
+	// a bare value as the default of a list and of lists of lists (coerced to a list of one at every level), next to defaults written out as lists
+	"enum Color { RED GREEN } type Query { f(init: [[Int!]!] = 0, labels: [[[String]]] = \"x\", c: [[Color!]!] = RED, one: [Int] = 8, two: [[Int]] = [1, 2], three: [[Int]] = [[1], [2]], b: [[Boolean]] = true, fl: [[Float!]] = 1.5): Int } input Board { cells: [[Int]] = 3 name: [String!] = \"n\" } directive @grid(shape: [[Int!]] = 2) on FIELD",
 	// string defaults with escape sequences and no quote inside (argument, input field, directive argument)
 	"type Query { g(p: String = \"\\\\d+\\t\\u00e9 x\", q: [String] = [\"a\\\\b\"]): Int h(i: IE): Int } input IE { r: String = \"back\\\\slash\" s: String = \"\" } directive @dd(s: String = \"t\\tab\") on FIELD",
 }
@@ -220,7 +222,7 @@ func init() {
 		ID:    "C15",
 		Level: "exploration",
 		Rule: "case = one service schema: every service SDL of every world (base + <=3 (thorough 4) atoms of the 45-atom catalogue incl. wrapper shapes, defaults of every literal kind, descriptions, deprecations, directive definitions, " +
-			"interface chains, unions, enums, inputs, custom scalars) plus 14 hand-written corner schemas (renamed roots, one root renamed next to default-named ones, 4-deep wrappers, escapes in string defaults, every directive location, repeatable directives); " +
+			"interface chains, unions, enums, inputs, custom scalars) plus 15 hand-written corner schemas (bare defaults of lists of lists, renamed roots, one root renamed next to default-named ones, 4-deep wrappers, escapes in string defaults, every directive location, repeatable directives); " +
 			"path: the real ParallelRemoteSchemaIntrospector over a spec-shaped responder (gqlref.Introspect, through JSON); oracle: canonical facts (incl. descriptions and deprecations) of the reconstruction == those of the source, " +
 			"an error is allowed only if a standard client (FromIntrospection) cannot rebuild the schema either; operations (<=2 fields) have the same validity on both; non-trivial = every case",
 		Assumptions: []string{"gqlref.IntrospectResolver is the spec-compliant responder", "applied directives other than @deprecated are not transported by introspection and are excluded"},
@@ -237,7 +239,7 @@ func init() {
 				sdls = c15ExtraSDL
 			} else {
 				seen := map[string]bool{}
-				for _, wd := range worldsOfJob(job) {
+				for _, wd := range worldsOfJob("C15", job) {
 					ss, err := specsOf(wd)
 					if err != nil {
 						continue
